@@ -62,14 +62,18 @@ def parts(tier, seed=0):
             a.append((G.mk_spec(nm, [k], ak), dict(dom_n=3 if q else 5, arg_dom_n=1, multi_len=2 if q else 3, arg_multi_len=2)))
     P.append(("A:each-option-kind-alone", a))
 
-    # B: all ordered pairs of structural kinds (+ three typed ones): grouping, value lookahead next to another option
+    # B: all ordered pairs of structural kinds: grouping, value lookahead next to another option, orderings
     b = []
-    cat = STRUCT + TYPED
-    for k1 in cat:
-        for k2 in cat:
+    for k1 in STRUCT:
+        for k2 in STRUCT:
             b.append((G.mk_spec(G.NAMES0, [k1, k2], [R]), dict(dom_n=2, arg_dom_n=1, multi_len=2, arg_multi_len=1)))
             b.append((G.mk_spec(G.NAMES1, [k1, k2], [R, M]),
-                      dict(dom_n=1, arg_dom_n=1, multi_len=1 if q else 2, arg_multi_len=1)))
+                      dict(dom_n=1 if q else 2, arg_dom_n=1, multi_len=1 if q else 2, arg_multi_len=1)))
+    # ... and every pair that involves a typed kind
+    for k1 in STRUCT + TYPED:
+        for k2 in STRUCT + TYPED:
+            if k1 in TYPED or k2 in TYPED:
+                b.append((G.mk_spec(G.NAMES0, [k1, k2], [R]), dict(dom_n=1 if q else 2, arg_dom_n=1, multi_len=2, arg_multi_len=1)))
     P.append(("B:option-pairs", b))
 
     # C: every legal argument shape with types, command names (spelled / aliased / suffix omitted), `--` tails
@@ -88,12 +92,12 @@ def parts(tier, seed=0):
     # D: one format split between a base format and the derived format in all ways
     d = []
     okinds = [G.opt_kind("flag"), G.opt_kind("req", "int")]
-    aks = [R, G.arg_kind("opt", "int", False, "typed"), M]
+    aks = [R, G.arg_kind("opt", "int", False, "typed")] + ([] if q else [M])
     for nb in range(3):
         for mask in itertools.product((False, True), repeat=2):
-            for na in range(4):
+            for na in range(len(aks) + 1):
                 d.append((G.mk_spec(G.NAMES2, okinds, aks, [nb, list(mask), na]),
-                          dict(dom_n=1, arg_dom_n=1, multi_len=1, arg_multi_len=1 if q else 2)))
+                          dict(dom_n=1, arg_dom_n=1, multi_len=1, arg_multi_len=1)))
     P.append(("D:base-split", d))
 
     # E: unusual but legal names (case-sensitive shorts, hyphen/digit long names, an argument called like the parser's
@@ -289,10 +293,16 @@ def main():
                 continue
             seen_specs.add(key)
             nformats[pname] = nformats.get(pname, 0) + 1
-            nsh = 1
+            nasg = len(_assignments(spec, params))
+            nsh = min(16, max(1, nasg // 8))  # big formats are dealt to several workers by assignment index
             for sh in range(nsh):
                 items.append((pi, fi, spec, params, sh, nsh))
-    results = par.pmap(run_item, items)
+    # schedule the (probably) biggest items first; results are merged by item, so the order has no influence on them
+    order = sorted(range(len(items)), key=lambda i: -(len(items[i][2]["opts"]) * 4 + len(items[i][2]["args"]) + len(items[i][2]["names"])))
+    res_sched = par.pmap(run_item, [items[i] for i in order])
+    results = [None] * len(items)
+    for i, r in zip(order, res_sched):
+        results[i] = r
     tot = {"lines": 0, "nontrivial": 0, "asg": 0}
     feat = {}
     per_part = {}
